@@ -45,7 +45,7 @@ const ALT = Object.assign(Object.create(null), {
   b: ['BB', 'B3', undefined],
   a: [{ b: 'B' }, { b: 'B2' }, undefined, null, { b: undefined }],
   obj: [{ a: { id: 1, v: 'p' }, b: { id: 2, v: 'q' }, c: { id: 3, v: 'r' } }, {}, { b: { id: 2, v: 'q' }, a: { id: 1, v: 'p' } }, { a: { id: 1, v: 'p' }, z: { id: 9, v: 'new' }, b: { id: 2, v: 'q' } }, undefined, { a: { id: 2, v: 's' }, b: { id: 2, v: 't' } }, { z: { id: 1, v: 'p' }, b: { id: 2, v: 'q' }, c: { id: 3, v: 'r' } }, { a: { id: 1, v: 'p' }, b: { id: 2, v: 'q' }, y: { id: 3, v: 'r' } }],
-  list: [[{ id: 1, v: 'p' }, { id: 2, v: 'q' }, { id: 3, v: 'r' }, { id: 4, v: 's' }, { id: 5, v: 'u' }], [{ id: 1, v: 'p' }, { id: 2, v: 'q' }, { id: 3, v: 'r' }], [], [{ id: 3, v: 'r' }, { id: 1, v: 'p' }], [1, 2], ['', 0], { k: 1, m: 2 }, 'ab', 2, undefined, null, [[1, 2], 'xy'], { p: { id: 1, v: 'p' }, q: { id: 2, v: 'q' }, r: { id: 3, v: 'r' }, s: { id: 4, v: 's' }, t: { id: 5, v: 'u' } }],
+  list: [[{ id: 1, v: 'p' }, { id: 2, v: 'q' }, { id: 3, v: 'r' }, { id: 4, v: 's' }, { id: 5, v: 'u' }], [{ id: 1, v: 'p' }, { id: 2, v: 'q' }, { id: 3, v: 'r' }], [], [{ id: 3, v: 'r' }, { id: 1, v: 'p' }], [1, 2], ['', 0], { k: 1, m: 2 }, 'ab', 2, undefined, null, [[1, 2], 'xy'], [{ id: 1, v: 'p' }, { id: 1, v: 'q' }, { id: 3, v: 'r' }], { p: { id: 1, v: 'p' }, q: { id: 2, v: 'q' }, r: { id: 3, v: 'r' }, s: { id: 4, v: 's' }, t: { id: 5, v: 'u' } }],
 })
 
 function setPath(data, path, value) {
@@ -116,6 +116,7 @@ function transitions(data, names, reduced, keyed) {
       out.push({ label: 'splice in the middle', ops: [{ path: ['list'], splice: [1, 1, [fresh, { id: 10, v: 'n2' }]] }] })
       out.push({ label: 'duplicate key', ops: [{ path: ['list', 1], value: clone(L[0]) }] })
       out.push({ label: 'swap by two item writes', ops: [{ path: ['list', 0], value: clone(L[1]) }, { path: ['list', 1], value: clone(L[0]) }] })
+      if (L.length >= 3) out.push({ label: 'two item writes (0 replaced, 2 takes the old item 0)', ops: [{ path: ['list', 0], value: { id: 7, v: 'rep' } }, { path: ['list', 2], value: clone(L[0]) }] })
     }
     // a list operation that shifts items together with an exact change inside a surviving item (indices after the operation)
     if (L.length >= 3 && L.every((x) => x && typeof x === 'object' && !Array.isArray(x))) {
@@ -139,7 +140,7 @@ function transitions(data, names, reduced, keyed) {
     // every list operation together with a change of each other field in the same update (the list diff and the bindings
     // inside the items that read data outside the item are served by one pass)
     if (!reduced) {
-      const listOps = out.filter((t) => t.ops.some((op) => op.path[0] === 'list') && t.ops.length <= 2 && !t.label.startsWith('set ') && !t.label.startsWith('permute '))
+      const listOps = out.filter((t) => t.ops.some((op) => op.path[0] === 'list') && t.ops.length <= 2 && !t.label.startsWith('set ') && !t.label.startsWith('permute ') && !t.label.includes(' + change field of item '))
       for (const n of used) {
         if (n === 'list') continue
         const v = ALT[n].find((x) => key(x) !== key(data[n]))
@@ -190,7 +191,9 @@ function unreachableNames(nodes, inside, out = new Set()) {
     if (n.k === 'tis') { add(n.is); add(n.data) }
     if (n.k === 'slot') { add(n.name); add(n.values) }
     if (n.k === 'block' && n.slot !== undefined) add(n.slot)
-    if (n.k === 'tdef') { add(n.children); continue }
+    // a name inside a <template name> body is a field of the TEMPLATE's data: it is a use of a host field only through the data
+    // expression of an instantiation (counted above as a structural position), whatever the names are
+    if (n.k === 'tdef') continue
     if (dyn) {
       if (n.k === 'text') add(n.pieces)
       if (n.attrs) add(n.attrs)
